@@ -120,7 +120,11 @@ class AsyncioTransportStreamSocketAdapter(AsyncStreamTransport):
         await self.__protocol.writer_drain()
 
     async def send_all_from_iterable(self, iterable_of_data: Iterable[bytes | bytearray | memoryview]) -> None:
-        self.__transport.writelines(iterable_of_data)
+        # asyncio's selector transport (CPython 3.12) asserts that writelines() gets at least one buffer.
+        list_of_data = list(iterable_of_data)
+        del iterable_of_data
+        if list_of_data:
+            self.__transport.writelines(list_of_data)
         await self.__protocol.writer_drain()
 
     async def send_eof(self) -> None:
